@@ -201,12 +201,15 @@ fn adversarial(ctor: Ctor, gen: usize, len: usize) -> (u64, u64, Vec<Viol>) {
             3 => if i % (w + 1) == 0 { 0 } else if i % 7 == 3 { 1 } else { 3 }, // a slightly rarer than 1/width, drifting across windows
             4 => if (i / w) % 3 == 0 && pos_in_window < 2 { 2 } else { 3 }, // bursts of c every third window
             5 => if i * 20 > len * 19 && i % 2 == 0 { 2 } else if pos_in_window == 0 { 0 } else { 3 }, // a heavy hitter that first appears in the last 5 % of a long stream
-            _ => if i >= 65_540 * w { 2 } else if pos_in_window == 0 { 0 } else { 3 }, // late flood: after more than 65536 windows every add is c, until c exceeds epsilon*n
+            6 => if i >= 65_540 * w { 2 } else if pos_in_window == 0 { 0 } else { 3 }, // late flood: after more than 65536 windows every add is c, until c exceeds epsilon*n
+            // a twice in the first window, then once right after every boundary: at the end of window k it has k+1 occurrences, one more
+            // than the window index - it must survive every pruning (width sweep: the window index is computed per width)
+            _ => if pos_in_window == 0 || i == 1 { 0 } else { 3 },
         };
         stream.push(sym);
         // very long streams: add()'s contract at every step, the full threshold oracle at every 16th prefix
         // (a missed or intruding element persists over many prefixes)
-        let full = len <= 50_000 || i % 16 == 15 || i + 1 == len;
+        let full = if gen == 7 { pos_in_window <= 1 || pos_in_window == w - 1 } else { len <= 50_000 || i % 16 == 15 || i + 1 == len };
         let bad = add(&mut st, sym).or_else(|| if full { check(&st, &th, &mut cmp) } else { None });
         if let Some((sig, msg)) = bad {
             let v = Viol { property: "C09".into(), signature: format!("lossycounter {}", sig), message: format!("{:?} adversarial generator {}: {}", ctor, gen, msg), replay: json!({"structure": "LossyCounter", "constructor": format!("{:?}", ctor), "generator": gen, "stream_len": stream.len(), "stream_tail": stream.iter().rev().take(40).rev().map(|&s| sym_name(s)).collect::<Vec<_>>()}) };
@@ -255,6 +258,13 @@ fn main() {
     if thorough {
         jobs.push((Ctor::Width(3), -1 - 6, 65_540 * 3 * 2 + 20_000));
         jobs.push((Ctor::Width(3), -1 - 3, 420_000));
+    }
+    // width sweep: every width up to 256 (thorough 1024), by width and by epsilon = 1/width, 16 windows of the k+1 generator
+    for w in 1..=(if thorough { 1024usize } else { 256 }) {
+        jobs.push((Ctor::Width(w), -1 - 7, 16 * w + 2));
+        if w >= 2 {
+            jobs.push((Ctor::Eps(1.0 / w as f64), -1 - 7, 16 * w + 2));
+        }
     }
     jobs.sort_by_key(|j| std::cmp::Reverse(j.2));
     let res = par_map(&jobs, n_threads(), |&(c, k, d)| if k >= 0 { tree(c, d, k as u8) } else { adversarial(c, (-1 - k) as usize, d) });
